@@ -62,3 +62,24 @@ package acl
 //@   ensures {C06} command-allowed: result == nil && acl.Config.RequirePass && subCommand == zeroval("internal.SubCommand") && !exempt(command.Command) ==> old(exists i int :: 0 <= i && i < len(acl.Connections[conn].User.IncludedCommands) && (acl.Connections[conn].User.IncludedCommands[i] == "*" || acl.Connections[conn].User.IncludedCommands[i] == command.Command))
 //@   ensures {C06} command-not-excluded: result == nil && acl.Config.RequirePass && subCommand == zeroval("internal.SubCommand") && !exempt(command.Command) ==> !old(exists i int :: 0 <= i && i < len(acl.Connections[conn].User.ExcludedCommands) && (acl.Connections[conn].User.ExcludedCommands[i] == "*" || acl.Connections[conn].User.ExcludedCommands[i] == command.Command))
 //@   ensures {C06} nokeys: result == nil && acl.Config.RequirePass && subCommand == zeroval("internal.SubCommand") && !exempt(command.Command) && acl.Connections[conn].User.NoKeys ==> true
+
+// ---- user records ------------------------------------------------------------------------------
+
+// ACL LOAD ... REPLACE: the stored user takes every rule and credential of the loaded one (the name is kept).
+//@ func (*User).Replace noalloc props C11
+//@   requires new != nil
+//@   ensures {C11} flags: user.Enabled == old(new.Enabled) && user.NoKeys == old(new.NoKeys) && user.NoPassword == old(new.NoPassword)
+//@   ensures {C11} credentials: user.Passwords == old(new.Passwords)
+//@   ensures {C11} rules: user.IncludedCategories == old(new.IncludedCategories) && user.ExcludedCategories == old(new.ExcludedCategories) && user.IncludedCommands == old(new.IncludedCommands) && user.ExcludedCommands == old(new.ExcludedCommands) && user.IncludedReadKeys == old(new.IncludedReadKeys) && user.IncludedWriteKeys == old(new.IncludedWriteKeys) && user.IncludedPubSubChannels == old(new.IncludedPubSubChannels) && user.ExcludedPubSubChannels == old(new.ExcludedPubSubChannels)
+//@   ensures {C11} name: user.Username == old(user.Username)
+//@   modifies user.Enabled, user.NoKeys, user.NoPassword, user.Passwords, user.IncludedCategories, user.ExcludedCategories, user.IncludedCommands, user.ExcludedCommands, user.IncludedReadKeys, user.IncludedWriteKeys, user.IncludedPubSubChannels, user.ExcludedPubSubChannels
+
+//@ func CreateUser props C11
+//@   ensures fresh(result) && result.Username == username && result.Enabled && !result.NoPassword && !result.NoKeys && len(result.Passwords) == 0
+//@   ensures len(result.IncludedCategories) == 0 && len(result.IncludedCommands) == 0 && len(result.IncludedReadKeys) == 0 && len(result.IncludedWriteKeys) == 0 && len(result.IncludedPubSubChannels) == 0
+//@   modifies nothing
+
+//@ func GetPasswordType noalloc props C11
+//@   requires len(password) > 0
+//@   ensures result == (at(password, 0) == 35 ? "SHA256" : "plaintext")
+//@   modifies nothing
